@@ -763,7 +763,73 @@ Definition view_of (w : world) (tid row : nat) : option value :=
   | None => None
   end.
 
-Definition step (w : world) (o : op) : result :=
+(** ** What a panicking operation leaves behind
+
+    The creation and exchange operations call [findOrCreateArchetype] BEFORE their last
+    argument check (or panic inside it): a failed call leaves the graph nodes - and, when the
+    check that fails comes after the walk, the (empty) table - it created.  No entity,
+    component value, handle, lock or registered filter's selection changes (Proofs/Ghost.v),
+    but the ORDER of tables created later does, so the model follows the code here.
+    [ghost_of w o] is the world a panicking [o] returns; [step0] is the operation proper. *)
+Definition ghost_create (w : world) (ids : list nat) (tg : Entity) : world :=
+  match ids with [] => w | _ => foc_world w 0 ids [] tg end.
+
+Definition ghost_new (w : world) (ids : list nat) : world :=
+  if is_locked w then w else ghost_create w ids ezero.
+
+Definition ghost_new_target (w : world) (tg : Entity) (ids : list nat) : world :=
+  if is_locked w then w else if negb (target_ok w tg) then w else ghost_create w ids tg.
+
+Definition ghost_builder_new (w : world) (b : bspec) (target : option Entity) : world :=
+  match target with
+  | Some tg => match b_rel b with None => w | Some _ => ghost_new_target w tg (b_ids b) end
+  | None => ghost_new w (b_ids b)
+  end.
+
+Definition ghost_new_batch (w : world) (count : Z) (b : bspec) (target : option Entity) : world :=
+  match target, b_rel b with
+  | Some _, None => w
+  | _, _ =>
+      if is_locked w then w else
+      if (count <? 1)%Z then w else
+      let tg := default ezero target in
+      if negb (target_ok w tg) then w else ghost_create w (b_ids b) tg
+  end.
+
+Definition ghost_assign (w : world) (e : Entity) (cs : list (nat * Z)) (rel : option (nat * Entity)) : world :=
+  match cs with [] => w | _ => exchange_ghost w e (map fst cs) [] rel end.
+
+Definition ghost_builder_add (w : world) (b : bspec) (e : Entity) (target : option Entity) : world :=
+  match target, b_rel b with
+  | Some _, None => w
+  | _, _ =>
+      let rel := match target, b_rel b with Some t, Some r => Some (r, t) | _, _ => None end in
+      match b_vals b with
+      | None => exchange_ghost w e (b_ids b) [] rel
+      | Some _ => ghost_assign w e (b_comps b) rel
+      end
+  end.
+
+Definition ghost_of (w : world) (o : op) : world :=
+  match o with
+  | ONew ids => ghost_new w ids
+  | ONewWith cs => ghost_new w (map fst cs)
+  | OBNew b t => ghost_builder_new w b t
+  | OBBatch b n t | OBBatchQ b n t => ghost_new_batch w n b t
+  | OBAdd b e t => ghost_builder_add w b e t
+  | OExchange e add rem => exchange_ghost w e add rem None
+  | OAssign e cs => ghost_assign w e cs None
+  | ORelExchange e add rem rid t => exchange_ghost w e add rem (Some (rid, t))
+  | _ => w
+  end.
+
+Definition with_ghost (g : world) (r : result) : result :=
+  match r with
+  | (_, Panic, evs) => (g, Panic, evs)
+  | _ => r
+  end.
+
+Definition step0 (w : world) (o : op) : result :=
   match o with
   | ONew ids => op_new w ids []
   | ONewWith cs => match cs with [] => op_new w [] [] | _ => op_new w (map fst cs) cs end
@@ -859,6 +925,22 @@ Definition step (w : world) (o : op) : result :=
   | OIsLocked => ok w (VBool (is_locked w)) []
   | OStats => ok w (VNat (pool_len (w_pool w))) []
   end.
+
+(** One operation: the operation proper, and on a panic the world it leaves behind. *)
+Definition step (w : world) (o : op) : result :=
+  match o with
+  | ONew ids => with_ghost (ghost_new w ids) (op_new w ids [])
+  | ONewWith cs => with_ghost (ghost_new w (map fst cs)) (match cs with [] => op_new w [] [] | _ => op_new w (map fst cs) cs end)
+  | OBNew b t => with_ghost (ghost_builder_new w b t) (op_builder_new w b t)
+  | OBBatch b n t => with_ghost (ghost_new_batch w n b t) (op_new_batch w n b t)
+  | OBBatchQ b n t => with_ghost (ghost_new_batch w n b t) (op_new_batch_q w n b t)
+  | OBAdd b e t => with_ghost (ghost_builder_add w b e t) (op_builder_add w b e t)
+  | OExchange e add rem => with_ghost (exchange_ghost w e add rem None) (op_exchange w e add rem None [])
+  | OAssign e cs => with_ghost (ghost_assign w e cs None) (op_assign w e cs None)
+  | ORelExchange e add rem rid t => with_ghost (exchange_ghost w e add rem (Some (rid, t))) (op_exchange w e add rem (Some (rid, t)) [])
+  | _ => step0 w o
+  end.
+
 
 (** A run from a fresh world. *)
 Definition run (w : world) (ops : list op) : world := foldl (fun w o => fst (fst (step w o))) w ops.
